@@ -1,6 +1,7 @@
 """Alphabets for the PROTO engine."""
+import re
 from .proto import Alphabet
-from .facts import op_const, const_bytes, callee_def
+from .facts import op_const, const_bytes, callee_def, op_place
 from . import flow
 from .common import strip_generics
 
@@ -12,9 +13,27 @@ class CorrectionStream(Alphabet):
     """Events = calls of the PredictionEncoder / PredictionDecoder trait methods.
     labels: ('corr', ctx) ('mis', ctx, bool|None) ('val', bits|None, value|None) ('vs', msg)"""
 
-    def __init__(self, side):
+    STATE_SCOPE = ("preflate_rs::token_predictor::TokenPredictor::<'a>::predict_block",
+                   "preflate_rs::token_predictor::TokenPredictor::<'a>::recreate_block")
+
+    def __init__(self, side, state=False):
         self.side = side
         self.trait = ENC if side == "w" else DEC
+        self.state = state      # also report mutations of the shared predictor state as events
+
+    def state_event(self, body, t):
+        """('st', method, integer-constant arguments) for a call that mutates (a part of) the predictor `self`."""
+        if not self.state or body.name not in self.STATE_SCOPE or not t["args"]:
+            return None
+        p0 = op_place(t["args"][0])
+        if p0 is None or not body.local_ty(p0["l"]).startswith("&mut"):
+            return None
+        o = flow.origin(body, t["args"][0])
+        if o.args != {1} or o.calls or o.consts:
+            return None
+        name = strip_generics(t["callee"].get("def", "")).split("::")[-1]
+        consts = tuple(flow.const_eval(body, a) for a in t["args"][1:] if op_place(a) is None or re.match(r"^(u8|u16|u32|u64|usize|i32|bool)$", body.local_ty(op_place(a)["l"])))
+        return (("st", name, consts), None)
 
     def is_event_callee(self, t):
         c = t.get("callee", {})
@@ -23,7 +42,8 @@ class CorrectionStream(Alphabet):
     def event(self, M, body, bb, t):
         c = t.get("callee", {})
         if c.get("trait") != self.trait:
-            return None
+            se = self.state_event(body, t)
+            return [se] if se else None
         m = c["def"].split("::")[-1]
         a = t["args"]
         where = "%s:%s" % (body.file, t.get("line"))
@@ -89,6 +109,8 @@ def match_correction(wl, rl):
         return wl[1] == rl[1], wl[2]
     if k == "vs":
         return wl[1] == rl[1], None
+    if k == "st":
+        return wl[1:] == rl[1:], None
     return False, None
 
 
